@@ -166,12 +166,31 @@ def outside_freq_mask(np, lh, rh, rate, W, real):
     return m
 
 
-def oracle(np, bank, fi, W, eps):
-    """Returns (violations, measures).  violations: list of (clause, measured, bound)."""
-    X = bank.get_frequency_response(fi, W)
-    x = bank.get_impulse_response(fi, W)
+QUERY_ORDERS = ["freq,impulse", "impulse,freq", "half,impulse,freq", "truncated,impulse,freq,impulse"]
+
+
+def oracle(np, bank, fi, W, eps, order=0):
+    """Returns (violations, measures).  violations: list of (clause, measured, bound).
+    The two responses are asked of the SAME bank object in the given order (its answers must not depend on what
+    it was asked before); a response asked twice must come back identical."""
+    got = {}
     bad = []
     meas = {}
+    for q in QUERY_ORDERS[order].split(","):
+        if q == "freq":
+            r = bank.get_frequency_response(fi, W)
+        elif q == "impulse":
+            r = bank.get_impulse_response(fi, W)
+        elif q == "half":
+            bank.get_frequency_response(fi, W, half=True)
+            continue
+        else:
+            bank.get_truncated_response(fi, W)
+            continue
+        if q in got and not (got[q].shape == r.shape and np.array_equal(got[q], r)):
+            bad.append(("repeated_query_differs", dict(query=q, shapes=[list(got[q].shape), list(r.shape)]), None))
+        got[q] = r
+    X, x = got["freq"], got["impulse"]
     if X.shape != (W,) or x.shape != (W,):
         bad.append(("shape", [list(X.shape), list(x.shape)], W))
         return bad, meas
@@ -261,12 +280,14 @@ def run_search(ctx, F, np, eps, n_banks, cap, time_budget, seeds=()):
                 keep = set(ws[:2]) | set(ctx.rng.sample(ws[2:], 2))
                 ws = sorted(keep)
             for W in ws:
+                order = ctx.rng.randrange(len(QUERY_ORDERS))
+                ctx.count("search:query-order:" + QUERY_ORDERS[order])
                 try:
-                    bad, meas = oracle(np, bank, fi, W, eps)
+                    bad, meas = oracle(np, bank, fi, W, eps, order)
                 except AssertionError as e:
                     # the triangular banks assert their own index arithmetic
                     bad, meas = [("assertion", repr(e), None)], {}
-                case = dict(config=cfg, filt_idx=fi, width=W)
+                case = dict(config=cfg, filt_idx=fi, width=W, query_order=QUERY_ORDERS[order])
                 ctx.case(case, nontrivial=bool(meas.get("nt")) or bool(meas.get("nf")))
                 ctx.count("search:eval:" + cfg["kind"])
                 ctx.count("search:width-parity:%s" % ("odd" if W % 2 else "even"))
@@ -283,7 +304,7 @@ def run_search(ctx, F, np, eps, n_banks, cap, time_budget, seeds=()):
                     found += 1
                     ctx.fail(
                         "property violated on the implementation (%s): measured %r, bound %r at %r" % (clause, measured, bound, case),
-                        dict(check=clause, config=cfg, filt_idx=fi, width=W, measured=measured, bound=bound,
+                        dict(check=clause, config=cfg, filt_idx=fi, width=W, query_order=QUERY_ORDERS[order], measured=measured, bound=bound,
                              supports=[int(v) for v in bank.supports[fi]], supports_hz=[float(v) for v in bank.supports_hz[fi]]),
                         kind="impl")
                 if found >= 8:
@@ -874,8 +895,9 @@ def replay(ctx, rp):
         print("VIOLATED", b_)
     ws = [case["width"]] if case.get("width") else widths_for(ctx.rng, bank, fi, 12000)[0]
     rc = 1 if bad_shape else 0
+    order = QUERY_ORDERS.index(case["query_order"]) if case.get("query_order") in QUERY_ORDERS else 0
     for W in ws:
-        bad, meas = oracle(np, bank, fi, W, eps)
+        bad, meas = oracle(np, bank, fi, W, eps, order)
         print("width", W, "measures (x threshold)", {k: round(v, 4) for k, v in meas.items() if k in ("idft", "time", "freq")})
         for clause, measured, bound in bad:
             print("VIOLATED", clause, measured, "bound", bound)
